@@ -17,6 +17,9 @@ stages: explicit  the hand-written configurations named by the property (Explici
                   plain closers, and an UNRELATED statement on signal 2 (+ == < << reductions bit_select ~ & Mux, an
                   If/Elif/Else chain, a primitive output) in the same or another module; every order-free configuration
                   is built in EVERY statement order (TLC checks PermutationInvariance of the verdict)
+        cattarget two drivers of one 4-bit signal (every domain / module / range pair); every target is ALSO written as
+                  Cat(p1, p2, s)[5+lo:5+hi] (a slice reaching into the third part of a concatenation), with and without
+                  a ResetInserter around the fragment of the first statement, DSL + convert and Fragment + build_netlist
         mutants   conflict judged per signal / cycle judged per signal / a branch depending on its own test only must
                   violate a theorem
 bind:   every state is built with the real amaranth twice: through the Module DSL (`m.d.<dom> +=`, `with m.If`,
@@ -68,6 +71,7 @@ def inst(shapes, sigws, vocab, maxdrv, maxrich=0, explicit="FALSE", mutant="", k
                 keep=keep)
 
 
+CAT_STAGES = ("cattarget",)                    # stages whose targets are also written as slices of a 3-part Cat
 PERM_STAGES = ("mix", "explicit", "cov")       # stages whose order-free configurations are built in every statement order
 
 
@@ -83,13 +87,15 @@ def stages(th):
               ("chain", inst('{"child"}', "W22", "VocabChain", 4)),
               ("branch", inst('{"child"}', "W3W22", "VocabBranchT", 2, maxrich=2)),
               ("branch3", inst('{"top"}', "W3", "VocabBranchQ", 3, maxrich=3)),
-              ("mix", inst('{"top", "child"}', "W32", "VocabMixT", 3, maxrich=3, keep="KeepMix"))]
+              ("mix", inst('{"top", "child"}', "W32", "VocabMixT", 3, maxrich=3, keep="KeepMix")),
+              ("cattarget", inst('{"top", "child", "sib"}', "W4", "VocabCatTarget", 2))]
     else:
         s += [("place2", inst(ALL_SHAPES, "W3", "VocabPlaceQ", 2)),
               ("dep", inst('{"chain"}', "W3", "VocabDepQ", 2, maxrich=1)),
               ("chain", inst('{"child"}', "W22", "VocabChain", 3)),
               ("branch", inst('{"child"}', "W3", "VocabBranchQ", 2, maxrich=2)),
-              ("mix", inst('{"child"}', "W32", "VocabMixQ", 3, maxrich=3, keep="KeepMix"))]
+              ("mix", inst('{"child"}', "W32", "VocabMixQ", 3, maxrich=3, keep="KeepMix")),
+              ("cattarget", inst('{"top", "child"}', "W4", "VocabCatTarget", 2))]
     return s
 
 
@@ -241,7 +247,7 @@ def _signals(cfg):
     return sigs
 
 
-def build(cfg, route, order=None):
+def build(cfg, route, order=None, cat=False, ri=False):
     """Build the configuration with real amaranth and convert it. Returns (class, layer/detail)."""
     from amaranth.hdl import Module, Fragment, ClockDomain, Instance, IOPort, IOBufferInstance, Cat, Const, Signal
     from amaranth.hdl import SyntaxError as AmSyntaxError
@@ -250,6 +256,7 @@ def build(cfg, route, order=None):
     from amaranth.hdl._ir import build_netlist
     from amaranth.back import rtlil
     from amaranth.lib import memory, io
+    from amaranth.hdl import ResetInserter
 
     parents = cfg["parents"]
     drv = cfg["drv"]
@@ -261,16 +268,10 @@ def build(cfg, route, order=None):
     try:
         if dsl:
             mods = [Module() for _ in parents]
-            for i, p in enumerate(parents):
-                if p:
-                    mods[p - 1].submodules["m%d" % (i + 1)] = mods[i]
             mods[0].domains.d1 = d1
             mods[0].domains.d2 = d2
         else:
             mods = [Fragment() for _ in parents]
-            for i, p in enumerate(parents):
-                if p:
-                    mods[p - 1].add_subfragment(mods[i], "m%d" % (i + 1))
             mods[0].add_domains(d1, d2)
 
         def add_sub(m, sub, name):
@@ -315,6 +316,9 @@ def build(cfg, route, order=None):
             lhs = sigs[r["s"]][r["lo"]:r["hi"]]
             n = r["hi"] - r["lo"]
             k = r["k"]
+            if k in DOMAINS and (cat is True or (cat == "last" and idx == order[-1])):
+                # the same bits, written as a slice of a concatenation reaching into its third part
+                lhs = Cat(Signal(2, name="pa%d" % idx), Signal(3, name="pb%d" % idx), sigs[r["s"]])[5 + r["lo"]:5 + r["hi"]]
             if k in DOMAINS:
                 stmt = lhs.eq(_rhs(sigs, r))
                 cond = _cond(sigs, r["c"])
@@ -352,17 +356,30 @@ def build(cfg, route, order=None):
                 extra_ports.append(port)
             else:
                 raise ValueError(k)
+        # the hierarchy is linked last, children first, so that a fragment can be wrapped (ResetInserter around the
+        # fragment of the first statement: it adds assignments of the same driver, the identities do not change)
+        wrap = drv[order[0]]["m"] - 1 if (ri and order) else None
+        final = list(mods)
+        for i in range(len(parents) - 1, -1, -1):
+            if i == wrap:
+                final[i] = ResetInserter({"d1": sigs[0][1], "d2": sigs[0][2]})(mods[i])
+            if parents[i]:
+                if dsl:
+                    mods[parents[i] - 1].submodules["m%d" % (i + 1)] = final[i]
+                else:
+                    mods[parents[i] - 1].add_subfragment(final[i], "m%d" % (i + 1))
+        top = final[0]
         # DSL route: every signal is a port of the design; Fragment route: the signals are internal
         ports = [sigs[0]] + (sigs[1:] if dsl else []) + [d1.clk, d1.rst, d2.clk, d2.rst] + extra_ports
         if dsl:
-            text = rtlil.convert(mods[0], ports=ports)
+            text = rtlil.convert(top, ports=ports)
             if "module" not in text:
                 raise MachineryError("rtlil.convert returned no module")
         elif route == "fragc":
-            if "module" not in rtlil.convert(mods[0], ports=ports):
+            if "module" not in rtlil.convert(top, ports=ports):
                 raise MachineryError("rtlil.convert returned no module")
         else:
-            build_netlist(mods[0], ports=ports)
+            build_netlist(top, ports=ports)
         return "ok", "-"
     except MachineryError:
         raise
@@ -434,7 +451,7 @@ def _orders(n):
     return [list(p) for p in itertools.permutations(range(n))]
 
 
-def check_config(cfg, perms=False):
+def check_config(cfg, perms=False, cat=False):
     """All routes for one configuration: list of (route, statement order, allowed set, class, layer).
     Program order matters to the oracle (dead assignments), so the DSL route uses the order of the record sequence
     (allowed set `exp`) and the Fragment route the reversed order (allowed set `expr`, computed by TLC on Reverse(drv))."""
@@ -444,6 +461,13 @@ def check_config(cfg, perms=False):
     obs = [("dsl", fwd, cfg["exp"]) + build(cfg, "dsl", fwd), ("frag", rev, cfg["expr"]) + build(cfg, "frag", rev)]
     if _has_lib(cfg):
         obs.append(("lib", fwd, cfg["exp"]) + build(cfg, "lib", fwd))
+    if cat:
+        for ri in (False, True):
+            sfx = "cat+ri" if ri else "cat"
+            obs.append(("dsl" + sfx, fwd, cfg["exp"]) + build(cfg, "dsl", fwd, cat=True, ri=ri))
+            obs.append(("frag" + sfx, rev, cfg["expr"]) + build(cfg, "frag", rev, cat=True, ri=ri))
+        obs.append(("dsl+ri", fwd, cfg["exp"]) + build(cfg, "dsl", fwd, ri=True))
+        obs.append(("dslcatlast", fwd, cfg["exp"]) + build(cfg, "dsl", fwd, cat="last"))      # only the last target via Cat
     if perms and cfg.get("ofree") and n >= 2:
         # no driver assigns a bit twice: TLC has checked (PermutationInvariance) that `exp` is the allowed set for every
         # statement order, so every order is built: all of them through the DSL + rtlil.convert, every other one through
@@ -465,7 +489,7 @@ def _state_to_cfg(st, parents):
 
 
 def _worker(job):
-    path, lo, hi, parents, perms = job
+    path, lo, hi, parents, perms, cat = job
     out = {"n": 0, "mism": [], "fps": [], "classes": {}, "layers": {}, "exp": {}, "sample": {}, "routes": 0}
     with warnings.catch_warnings():
         warnings.simplefilter("ignore")
@@ -476,10 +500,10 @@ def _worker(job):
             out["fps"].append(hash(text))
             ek = "|".join(cfg["exp"])
             out["exp"][ek] = out["exp"].get(ek, 0) + 1
-            for route, order, allowed, cls, layer in check_config(cfg, perms):
+            for route, order, allowed, cls, layer in check_config(cfg, perms, cat):
                 out["routes"] += 1
                 out["classes"][cls] = out["classes"].get(cls, 0) + 1
-                if cls == "driver_conflict" and route != "fragc":
+                if cls == "driver_conflict" and route in ("dsl", "frag", "lib"):
                     lk = route + ":" + layer
                     out["layers"][lk] = out["layers"].get(lk, 0) + 1
                 if cls not in allowed:
@@ -524,7 +548,7 @@ def run_tlc(ctx, name, ins):
 
 def run_stage(ctx, name, r, path, totals):
     parents = _parents_from(r)
-    jobs = [(path, lo, hi, parents, name in PERM_STAGES) for lo, hi in expr_replay.split_dump(path, 64)]
+    jobs = [(path, lo, hi, parents, name in PERM_STAGES, name in CAT_STAGES) for lo, hi in expr_replay.split_dump(path, 64)]
     res = pmap(_worker, jobs)
     os.unlink(path)
     n = sum(x["n"] for x in res)
@@ -624,7 +648,9 @@ def replay(ctx, rep):
     rc = 0
     with warnings.catch_warnings():
         warnings.simplefilter("ignore")
-        cls, layer = build(cfg, m["route"], m.get("order"))
+        rt = m["route"]
+        base = "frag" if rt.startswith("fragcat") else "dsl" if rt.startswith("dslcat") or rt == "dsl+ri" else rt
+        cls, layer = build(cfg, base, m.get("order"), cat="last" if rt == "dslcatlast" else "cat" in rt, ri=rt.endswith("+ri"))
     print("amaranth (%s route): %s %s" % (m["route"], cls, layer))
     if cls not in m["expected"]:
         print("VIOLATION property=C06 replay=(same)")
